@@ -73,7 +73,7 @@ def run(tier: str, seed: int, known: list[dict[str, Any]]) -> dict[str, Any]:
     import vlib.trun as T
 
     old = T.TASK_TIMEOUT
-    T.TASK_TIMEOUT = 900
+    T.TASK_TIMEOUT = 1800
     try:
         n = 16
         items = [(f"history.{k}", (seed, tier, k, n)) for k in range(n)]
